@@ -13,7 +13,8 @@ def sh(cmd, cwd=None, timeout=3600):
 def src(idm):
     ID, m = idm
     # round 2 of the campaign: `r2m1` lives in /tmp/mut/out2/<ID>/m1 and is developed in /tmp/mut/wt2-<ID>
-    fresh = '/tmp/mut/out2/%s/%s' % (ID, m[2:]) if m.startswith('r2') else '/tmp/mut/out/%s/%s' % (ID, m)
+    # later rounds alike: `r3m1` -> /tmp/mut/out3/<ID>/m1, /tmp/mut/wt3-<ID>
+    fresh = '/tmp/mut/out%s/%s/%s' % (m[1], ID, m[2:]) if m.startswith('r') else '/tmp/mut/out/%s/%s' % (ID, m)
     for d in ('/verif/seeded/%s-%s' % (ID, m), fresh):
         if os.path.exists(d + '/patch.diff'):
             return d
@@ -37,7 +38,7 @@ def demo_tests(d):
     return out
 
 def confirm(ID, m):
-    d = src((ID, m)); wt = ('/tmp/mut/wt2-%s' if m.startswith('r2') else '/tmp/mut/wt-%s') % ID
+    d = src((ID, m)); wt = (('/tmp/mut/wt%s-' % m[1]) + '%s' if m.startswith('r') else '/tmp/mut/wt-%s') % ID
     res = {}
     sh('git checkout -- . && git clean -fdq -e Cargo.lock -e target', wt)
     tests = demo_tests(d)
